@@ -200,7 +200,27 @@ def _deserialize_from_shm(buf: pa.Buffer, schema: pa.Schema) -> pa.RecordBatch:
     For dictionary schemas, reconstructs a valid IPC stream by prepending
     a schema message and appending an EOS marker, then reads via
     ``ipc.open_stream()``.
+
+    Raises:
+        pa.ArrowInvalid: If the region does not hold exactly what the pointer
+            claims.  The offset, length and schema are all the peer's word, so
+            every way the bytes can fail to decode is reported as this one
+            error: a region of zeros reads as an end-of-stream marker
+            (``StopIteration``) and one cut inside a message as ``OSError``,
+            and either would otherwise be mistaken by the serve loop for the
+            connection itself ending.
+
     """
+    try:
+        return _read_shm_region(buf, schema)
+    except (StopIteration, OSError) as exc:
+        raise pa.ArrowInvalid(
+            f"shared-memory region does not hold a record batch: {str(exc) or type(exc).__name__}"
+        ) from exc
+
+
+def _read_shm_region(buf: pa.Buffer, schema: pa.Schema) -> pa.RecordBatch:
+    """Read the batch stored in *buf* (see :func:`_deserialize_from_shm`)."""
     if not _has_dictionary_columns(schema):
         reader = ipc.open_stream(buf)
         return reader.read_next_batch()
